@@ -1,7 +1,7 @@
 """C04 — memory returned to a pool is reusable: no capacity is lost (DESIGN.md #C04)"""
 import subjects
 
-SPEC = dict(modules=["MemVerif.Props.C04", "MemVerif.Props.C04Lists", "MemVerif.Props.C04Pool", "MemVerif.Props.C04Coll"], gen_cfgs=("rwdi",),
+SPEC = dict(modules=["MemVerif.Props.C04", "MemVerif.Props.C04Lists", "MemVerif.Props.C04Pool", "MemVerif.Props.C04Coll", "MemVerif.Props.C04CollArr"], gen_cfgs=("rwdi",),
             assumptions=["memory_pool over the unordered, the ordered and the small node list: exact accounting for ALL histories (Props/C04Pool: capacity + live "
                          "cells = cells of the blocks in use; nothing lost after everything is released; cycles without growth restore the "
                          "counter exactly) under the C01 environment hypotheses and n*node_size < 2^64",
